@@ -39,7 +39,7 @@ REQUIRED_ANCHORS = ['index.LocMap.loc_to_iloc', 'index._IndexGOMixin.append', 'i
                     'index_level.IndexLevelGO.append', 'index_hierarchy.IndexHierarchy.from_product']
 
 FLAT = ['int', 'negint', 'str', 'float', 'tuple', 'dateobj', 'dt64', 'mixed', 'range', 'bool', 'IndexDate', 'IndexYearMonth', 'IndexSecond', 'auto', 'auto']
-ROUTES = ['list', 'generator', 'array', 'index', 'go', 'from_labels', 'tuple', 'pickle', 'deepcopy']
+ROUTES = ['list', 'generator', 'array', 'index', 'go', 'from_labels', 'tuple', 'pickle', 'deepcopy', 'array_then_written', 'go_array_then_written']
 DERIVS = ['none', 'iloc', 'drop_iloc', 'drop_loc', 'relabel_pair', 'relabel_dict', 'roll', 'sort', 'sort_desc', 'union',
           'intersection', 'difference', 'level_add', 'astype_object', 'rename', 'copy', 'to_go_and_back', 'series_index',
           'frame_columns', 'head', 'tail', 'loc_list', 'values_roundtrip']
@@ -418,6 +418,16 @@ def build_flat(kind, labels, route):
         return cls(x for x in labels)
     if route == 'array':
         return cls(src if _needs_obj(kind) else (np.array(labels) if labels else np.array([], dtype=np.int64)))
+    if route in ('array_then_written', 'go_array_then_written'):
+        # the caller keeps writing into the array it passed in: labels and look-up table of the index must both stay what they were
+        arr = src if _needs_obj(kind) else (np.array(labels) if labels else np.array([], dtype=np.int64))
+        arr = np.array(arr)  # a writeable array of the caller's own
+        idx = (_flat_cls(kind, go=True) if route.startswith('go') else cls)(arr)
+        if len(arr) > 1:
+            arr[...] = arr[::-1].copy()
+        if len(arr):
+            arr[0] = arr[-1]
+        return idx
     if route == 'index':
         return cls(cls(src))
     if route == 'go':
@@ -698,6 +708,10 @@ def _check_hier(case, ctx):
     if not bijection(ctx, idx, labels, klass, 'built'):
         return
     out = _derive_hier(ctx, idx, labels, depth, deriv, arg, klass)
+    if deriv != 'none' and n:
+        # deriving (also a derivation that was refused) leaves the source what it was: nodes a derived tree shares with it are not re-based in place
+        if not bijection(ctx, idx, labels, dict(klass, source_after_derivation=True), 'source_after:' + deriv):
+            return
     if out is None:
         return
     derived, model, ordered = out
